@@ -27,6 +27,17 @@ PROPS = {
                  'whole-workbook composition (CFB image -> Xls::new)', 'MULRK runs longer than 3', 'float RK entries inside MULRK (same rk_num call as RK)'],
         assumptions=['record bodies have the legal BIFF8 length unless the harness says otherwise'],
     ),
+    'C05': dict(
+        level_text='Inductive bounded model checking of every Range operation on the real code: arbitrary pre-state satisfying the representation invariant (arbitrary origin and contents, heights/widths per shape up to 3x3), one operation (new, empty, from_sparse, set_value, range, every read accessor), then invariant + the operation\'s exact post-condition. One step from an arbitrary valid state covers operation histories of any length for the shapes listed.',
+        hosts={'src/lib.rs': ['c05_lib.rs']},
+        functions=['Range::new', 'Range::empty', 'Range::from_sparse', 'Range::set_value', 'Range::range', 'Range::get', 'Range::get_value',
+                   'Range::rows/Rows', 'Range::cells/Cells', 'Range::used_cells/UsedCells', 'Index<usize>', 'Index<(usize,usize)>', 'start/end/width/height/get_size/is_empty'],
+        bounds={'element type': 'Range<usize> (one instantiation of the generic code)', 'pre-state': 'height,width in 1..=3, origin any u32 in [4, 2^32-17], contents any',
+                'set_value': 'target relative to start within growth <= 2 rows/cols (shape list)', 'range': 'windows up to 5x4 in the relative placements listed',
+                'from_sparse': '0..=3 cells (4 thorough), bounding box <= 3x3'},
+        outside=['Range<Data>/Range<String> instantiations (same generic code; Clone/Drop of the element differ)', 'rectangles larger than 3x3', 'u32 overflow of huge rectangles (C06)'],
+        assumptions=['from_sparse input is sorted by row (documented precondition)', 'set_value target is at or beyond the start corner (documented precondition)'],
+    ),
 }
 
 # (regex on harness name, overrides). First match wins after defaults.
